@@ -736,9 +736,11 @@ def strip_case(c):
     return {k: v for k, v in c.items() if k in ("stream", "shape", "nodes", "ops", "corpus_file")}
 
 
-def evaluate(tag, cases, fn):
-    lits = [g_case(o) for _, o in cases]
-    return common.coq_failing(tag, HEADER, CASE_TY, fn, lits)
+def evaluate(tag, cases, fn, ty=None, lit=None):
+    lits = [(lit or g_case)(o) for _, o in cases]
+    # many small shards: coqc runs in parallel (common.coq_failing uses a pool of NCPU)
+    shard = max(25, min(400, -(-len(lits) // max(2, common.NCPU - 2))))
+    return common.coq_failing(tag, HEADER, ty or CASE_TY, fn, lits, shard=shard)
 
 
 def observe(cases):
